@@ -52,7 +52,7 @@ def run_packages(ctx, pkgs, procs=8, timeout=3600):
     t = time.time()
     with ThreadPoolExecutor(max_workers=procs) as ex:
         results = list(ex.map(lambda a: _run_shard(ctx, a[0], a[1], timeout), enumerate(shards)))
-    res = {p["id"]: {"built": None, "tests": [], "crashed": None, "runfailed": None, "passes": None} for p in pkgs}
+    res = {p["id"]: {"built": None, "tests": [], "crashed": None, "runfailed": None, "passes": None, "main": None} for p in pkgs}
     for evs in results:
         for e in evs:
             r = res[e["id"]]
@@ -66,8 +66,30 @@ def run_packages(ctx, pkgs, procs=8, timeout=3600):
                 r["runfailed"] = e
             elif e["ev"] == "Passes":
                 r["passes"] = e["passes"]
+            elif e["ev"] == "Main":
+                r["main"] = e
     log("[exec] %d packages in %.0fs on %d procs" % (len(pkgs), time.time() - t, procs))
     return res
+
+
+def observe_main(ev):
+    """Observable of a script's main: logs, return data, revert code."""
+    logs, ret = [], []
+    for r in ev.get("receipts", []):
+        if r["t"] == "logdata":
+            logs.append(r["data"])
+        elif r["t"] == "log":
+            logs.append(r["ra"])
+        elif r["t"] == "returndata":
+            ret = r["data"]
+        elif r["t"] == "return":
+            ret = r["val"]
+    st = ev.get("state") or {"k": "error"}
+    if st["k"] == "revert":
+        return {"logs": logs, "out": "revert", "code": st["v"], "ret": []}
+    if st["k"] in ("return", "returndata"):
+        return {"logs": logs, "out": "return", "code": [], "ret": ret}
+    return {"logs": logs, "out": "error:" + (ev.get("err") or ev.get("panic") or st["k"])[:80], "code": [], "ret": []}
 
 
 def observe(test_ev):
